@@ -4,6 +4,7 @@ import concurrent.futures as cf
 import hashlib
 import json
 import os
+import shutil
 import sys
 import time
 
@@ -61,6 +62,8 @@ class Check:
         self.t0 = time.time()
         self.workdir = os.path.join(OUT, pid, tier)
         os.makedirs(self.workdir, exist_ok=True)
+        if tier != "replay":
+            shutil.rmtree(os.path.join(OUT, "violations", pid), ignore_errors=True)
         self.violations = []          # (key, replay path)
         self.known = {}               # finding id -> count
         self.stats = {"scenarios": 0, "accepted": 0, "events_accepted": 0, "tlc_states": 0, "tlc_transitions": 0,
